@@ -59,8 +59,9 @@ def oracle(chk, p, r, m):
                                 {"project": p, "build": [b["builder"], b["app"]], "missing": bad[:3]})
         elif b["decision"] == "unresolved":
             chk.count("unresolved")
-            # an unresolvable build must not be emitted: generated projects put every build's files under out/<builder>/<app>/
-            if r["ninja"] and f"out/{b['builder']}/{b['app']}/" in r["ninja"]:
+            # an unresolvable build must not be emitted: generated projects link every build into out/<builder>/<app>/<app>.elf
+            # (the exact file: an app named `a0/v` lives below out/<builder>/a0/ too)
+            if r["ninja"] and f"out/{b['builder']}/{b['app']}/{b['app']}.elf" in r["ninja"]:
                 chk.fail_oracle("closure:unresolved-emitted", f"unresolved build {b['builder']}/{b['app']} has statements in the ninja file",
                                 {"project": p, "build": [b["builder"], b["app"]]})
 
